@@ -169,6 +169,50 @@ def kernels(ctx, meas, np, quick, ops, checks, fl, f2b):
             checks.append(('tr_surv_prob_lhp', np.array([sv[j]]), dict(cs, tranche=j)))
     ctx.count('tr_surv_prob_lhp_partition_above_max_loss', n_c, n_c)
 
+    # ------------------------------------------------------------------ portfolio_cdf_lhp: the LHP loss law itself
+    # F(k) = P(L <= k) must be a distribution function on [0, 1-R] (R = the default-probability-weighted pool recovery, the one
+    # tr_surv_prob_lhp uses), reach 1 exactly at the maximal loss 1-R, and have the portfolio EL as its mean:
+    # integral_0^{1-R} (1 - F(k)) dk = sum (1-q_i)(1-R_i) / n, whatever the correlation (seed C17-12: the sibling of
+    # tr_surv_prob_lhp switched to the plain mean of the recoveries)
+    rng = ctx.rng('kern-lhp-cdf')
+    n_c = 40 if quick else 400
+    gx, gw = np.polynomial.legendre.leggauss(600)
+    done = 0
+    for t in range(n_c):
+        n = rng.choice([2, 5, 25, 125])
+        R = np.array([rng.choice([0.1, 0.25, 0.4, 0.6, 0.8]) for _ in range(n)]) if t % 4 else np.full(n, rng.choice([0.2, 0.4, 0.6]))
+        q = np.array([math.exp(-10 ** rng.uniform(-2.5, -0.5) * rng.uniform(0.5, 7)) for _ in range(n)])
+        if t % 4 == 1:                       # recoveries correlated with default probabilities
+            R = np.clip(0.8 - 0.7 * (1 - q) / max(1e-12, float((1 - q).max())), 0.05, 0.8)
+        beta = rng.choice([0.25, 0.4, 0.6, 0.8])
+        pm = float((1 - q).sum()) / n
+        elp = float(((1 - q) * (1 - R)).sum()) / n
+        rec = 1.0 - elp / pm
+        kmax = 1.0 - rec
+        F = lambda k: float(LHP.portfolio_cdf_lhp(float(k), n, q, R, beta, 50))  # noqa: E731
+        cs = {'fn': 'portfolio_cdf_lhp', 'num_credits': n, 'survival_probs': q.tolist(), 'recovery_rates': R.tolist(), 'beta': beta,
+              'portfolio_EL': elp, 'weighted_recovery': rec}
+        done += 1
+        above, below = F(kmax * (1 + 1e-9)), F(kmax * (1 - 1e-6))
+        if above != 1.0 or not (0.0 <= below <= 1.0):   # (F just below may round to 1.0 in doubles: no strict test)
+            ctx.violation('LHP loss distribution function does not reach 1 exactly at the maximal pool loss 1-R (R = default-probability-'
+                          'weighted recovery): F just above it / just below it', dict(cs, F_above=above, F_below=below, k_max=kmax),
+                          clause='lhp-cdf-is-a-law')
+            continue
+        ks = 0.5 * kmax * (gx + 1.0)
+        fv = np.array([F(k) for k in ks])
+        if not (np.all(fv >= 0.0) and np.all(fv <= 1.0) and np.all(np.diff(fv) >= -1e-12)):
+            ctx.violation('LHP loss distribution function is not a non-decreasing function into [0, 1]', dict(cs, values=fv[:20].tolist()),
+                          clause='lhp-cdf-is-a-law')
+            continue
+        mean = float(0.5 * kmax * np.dot(gw, 1.0 - fv))
+        meas.see('kern.lhp.cdf-mean-vs-EL', abs(mean - elp) / elp)
+        # Hull N is within 7.5e-8 of Phi and the coded inverse within ~1e-9; 600 Gauss-Legendre nodes on a smooth integrand (beta >= 0.25)
+        if not abs(mean - elp) <= 2e-4 * elp + 1e-7 * kmax:
+            ctx.violation('the mean of the LHP loss law, integral of (1 - F), is not the portfolio expected loss sum (1-q_i)(1-R_i)/n',
+                          dict(cs, mean_of_law=mean), clause='lhp-cdf-mean')
+    ctx.count('portfolio_cdf_lhp_is_a_law_with_mean_EL', done, done)
+
     # ------------------------------------------------------------------ basket survival loop of CDSBasket.value_1f_gaussian_homo
     basket_survival(ctx, meas, np, quick, ops, checks, fl)
 
